@@ -99,7 +99,7 @@ pub fn finite_calls(s: &SPDC) -> Value {
 
 /// the classes of the malformed / boundary stream, by weight
 pub fn mal_class(k: usize) -> usize {
-  const W: [usize; 20] = [0, 0, 0, 0, 0, 0, 1, 1, 1, 1, 2, 2, 3, 3, 4, 4, 5, 6, 6, 7];
+  const W: [usize; 22] = [0, 0, 0, 0, 0, 0, 1, 1, 1, 1, 2, 2, 3, 3, 4, 4, 5, 6, 6, 7, 8, 8];
   W[k % W.len()]
 }
 
@@ -213,6 +213,34 @@ pub fn corpus() -> Vec<(&'static str, Value)> {
       j["signal"]["theta_external_deg"] = json!(318.5);
       j
     }),
+    ("expr_crystal:unknown_variable", {
+      let mut j = base(810., 405., json!(30), Value::Null, json!("auto"), 0.);
+      j["crystal"]["kind"] = json!({"no": "sqrt(2.7359+0.01878/(l^2-0.01822)-0.01354*l^2)+q", "ne": "sqrt(2.3753+0.01224/(l^2-0.01667)-0.01516*l^2)"});
+      j["crystal"]["pm_type"] = json!("e->oo");
+      j
+    }),
+    ("expr_crystal:valid", {
+      let mut j = base(810., 405., json!(30), Value::Null, json!("auto"), 0.);
+      j["crystal"]["kind"] = json!({"no": "sqrt(2.7359+0.01878/(l^2-0.01822)-0.01354*l^2)", "ne": "sqrt(2.3753+0.01224/(l^2-0.01667)-0.01516*l^2)"});
+      j["crystal"]["pm_type"] = json!("e->oo");
+      j
+    }),
+    ("counter_propagation:idler_auto", {
+      let mut j = base(1550., 775., json!(90), ppa.clone(), json!("auto"), 0.);
+      j["crystal"]["counter_propagation"] = json!(true);
+      j
+    }),
+    ("counter_propagation:theta_auto", {
+      let mut j = base(1550., 775., json!("auto"), Value::Null, json!("auto"), 1.0);
+      j["crystal"]["counter_propagation"] = json!(true);
+      j
+    }),
+    ("nan_cost_period_search:backward_signal:pp_auto", json!({
+      "crystal": {"kind": "KDP_1", "length_um": 7276.51, "phi_deg": 193.27, "pm_type": "Type_2_e_oe", "temperature_c": 10.3189, "theta_deg": 99.2044},
+      "deff_pm_per_volt": 4.92797, "periodic_poling": {"poling_period_um": "auto"},
+      "pump": {"average_power_mw": 5.20792, "bandwidth_nm": 0.132943, "waist_um": 174.77, "wavelength_nm": 226.047},
+      "signal": {"phi_deg": -270.44, "theta_deg": 233.876, "waist_position_um": "auto", "waist_um": 200.76, "wavelength_nm": 452.095}
+    })),
     ("signal_80deg:pp_auto", base(1550., 775., json!(90), ppa.clone(), json!("auto"), 80.)),
     ("zero_period", base(1550., 775., json!(90), json!({"poling_period_um": 0.0}), json!("auto"), 0.)),
     ("auto_theta_with_poling", base(1550., 775., json!("auto"), ppe.clone(), json!("auto"), 0.)),
